@@ -2,7 +2,7 @@
 
 Oracle: reference `Sub` semantics (values evaluated in the caller's environment, all at once) at every point.
 Workload: E2 catalogue of subjects x systematic value classes per input (singles exhaustive, pairs, triples), foreign keys,
-chained substitutions; routes eager / lazy / reflect (+ reinterpretation).
+chained substitutions; routes eager / lazy / reflect / normalize (+ reinterpretation) and eager with an explicit ordered Subs.
 """
 import itertools
 
@@ -20,13 +20,13 @@ RULE = ("subjects f from a catalogue (tensors of 1-3 inputs, lazy binary/unary/r
         "Independent, Gaussian, Delta, lazy getitem) x maps from f's inputs into value classes {number, fresh/colliding/self variable, "
         "every slice, index tensors over nothing / a fresh name / an input of f / the substituted name itself, lazy integer "
         "expressions, real tensors, affine real expressions}: every single-input map, products for pairs, sampled or full products "
-        "for triples, keys that are not inputs, chained f(a)(b); each decided at every point of the integer input space. "
+        "for triples, keys that are not inputs, chained f(a)(b); routes eager, reflect, lazy, normalize (each also reinterpreted) and Subs(f, pairs) with the pairs in the given (permuted) order; each decided at every point of the integer input space. "
         "Non-trivial: well-typed, funsor returned, >=2 points compared; distinct by (subject, map) hash")
 ASSUMPTIONS = ["fv/refsem.py Sub semantics is the reference", "ill-typed maps (one name with two domains) are discarded by the independent typechecker"]
 MIN_NONTRIVIAL = {"quick": 1500, "thorough": 10000}
-REQUIRED_COUNTERS = ["route:eager:ok", "route:reflect:ok", "route:lazy:ok", "chained:ok"]
+REQUIRED_COUNTERS = ["route:eager:ok", "route:reflect:ok", "route:lazy:ok", "route:normalize:ok", "route:eager-ordered:ok", "chained:ok"]
 
-ROUTES = ("eager", "reflect", "lazy")
+ROUTES = ("eager", "reflect", "lazy", "normalize", "eager-ordered")
 
 
 def plan(tier, seed):
@@ -64,7 +64,7 @@ def run_shard(shard, res):
         for a, b in itertools.combinations(names, 2):
             for (la, va), (lb, vb) in itertools.product(thinned[a], thinned[b]):
                 cases.append((((a, la, va), (b, lb, vb)), "pair"))
-                if rng2.random() < 0.15:
+                if rng2.random() < (0.5 if f_inputs[a][0] == "real" and f_inputs[b][0] == "real" else 0.15):
                     cases.append((((b, lb, vb), (a, la, va)), "pair-reordered"))
         # triples
         if len(names) >= 3:
@@ -74,7 +74,17 @@ def run_shard(shard, res):
                 idx = rng2.choice(len(trip), size=300, replace=False)
                 trip = [trip[i] for i in idx]
             for combo in trip:
-                cases.append((tuple((n, lab, v) for n, (lab, v) in zip(names[:3], combo)), "triple"))
+                c3 = [(n, lab, v) for n, (lab, v) in zip(names[:3], combo)]
+                if rng2.random() < 0.5:
+                    c3 = [c3[i] for i in rng2.permutation(3)]
+                cases.append((tuple(c3), "triple"))
+            # pairs / triples among the real inputs in every order (the order of an explicit Subs map must not matter)
+            reals = [n for n in names if f_inputs[n][0] == "real"]
+            if len(reals) >= 3:
+                for k in (2, 3):
+                    for perm in itertools.permutations(reals, k):
+                        for _ in range(2):
+                            cases.append((tuple((n,) + thinned[n][int(rng2.integers(len(thinned[n])))] for n in perm), "real-permutation"))
         for case, kind in cases:
             counter += 1
             if counter % shard["of"] != shard["index"]:
@@ -92,10 +102,19 @@ def build_route(route, S):
     import funsor
     from funsor.interpretations import lazy, reflect
 
-    from ..build import build
+    from funsor.interpretations import normalize
+
+    from ..build import build, explicit_subs
 
     if route == "eager":
         return build(S), None
+    if route == "eager-ordered":
+        with explicit_subs():
+            return build(S), None
+    if route == "normalize":
+        with normalize:
+            L = build(S)
+        return L, funsor.reinterpret(L)
     if route == "reflect":
         with reflect:
             L = build(S)
@@ -178,7 +197,7 @@ def run_chained(label, f, f_inputs, classes, res, riders, rng):
     riders.before(S)
     labs = ("%s=%s" % (n1, lab1), "then %s=%s" % (n2, lab2))
     ok = False
-    for route in ("eager", "lazy"):
+    for route in ("eager", "lazy", "normalize"):
         try:
             with np.errstate(all="ignore"):
                 R, R2 = build_route(route, S)
